@@ -366,6 +366,10 @@ func (rs *runState) session(s *sess, wg *sync.WaitGroup) {
 					return
 				}
 				ok = true
+			} else if r.Intn(6) == 0 {
+				// a line other than DONE ends IDLE with a tagged BAD; the idle goroutine is not joined on this path
+				s.raw.SendStr("NOTDONE\r\n")
+				_, ok = rs.wait(s, tag, "IDLE/NOTDONE")
 			} else {
 				s.raw.SendStr("DONE\r\n")
 				_, ok = rs.wait(s, tag, "IDLE/DONE")
